@@ -70,6 +70,25 @@ def is_external_opaque(n: ast.Call) -> bool:
     return False
 
 
+# pure external functions modelled as uninterpreted functions of their arguments ([A]: the file system does not change under the
+# function's feet except through the calls listed as effects)
+EXTERNAL_PURE = {"os.path.exists": ("fs_exists", "bool"), "os.path.join": ("path_join", "str"), "os.path.isfile": ("fs_isfile", "bool"),
+                 "os.path.isdir": ("fs_isdir", "bool"), "os.path.basename": ("path_basename", "str"), "os.path.dirname": ("path_dirname", "str")}
+EXTERNAL_EFFECT = {"os.makedirs", "os.mkdir"}
+RULES.append("external pure calls as uninterpreted functions: os.path.exists/join/isfile/isdir/basename/dirname; os.makedirs/os.mkdir as no-ops on everything a contract mentions")
+
+
+def dotted(node):
+    parts = []
+    while isinstance(node, ast.Attribute):
+        parts.append(node.attr)
+        node = node.value
+    if isinstance(node, ast.Name):
+        parts.append(node.id)
+        return ".".join(reversed(parts))
+    return None
+
+
 def external_kind(n: ast.Call) -> str:
     f = n.func
     if isinstance(f, ast.Attribute) and isinstance(f.value, ast.Name) and f.value.id == "time":
